@@ -199,6 +199,10 @@ def case_risk(ctx, spec):
                 raise
             except np.linalg.LinAlgError:
                 raise Discard("singular Jacobian (pseudo=False)")
+            except ZeroDivisionError:
+                # a book whose value is exactly zero one date and moves the next (an unfunded book that only holds hedges): bt refuses the
+                # return on a zero base by design (C10's class zero_base_*)
+                raise Discard("return on a zero base (refused by design)")
             except Exception as e:
                 raise Violation("run raised %s: %s" % (type(e).__name__, str(e)[:200]), signature="c20:raises:" + bt_frame_signature(e))
     finally:
